@@ -26,6 +26,7 @@ fn config_for(p: &Program) -> Config {
         Steps::Cont(n) => MaxSteps::ContinueAfter(n),
     };
     c.silence_warnings = true;
+    c.max_time = p.time_ms.map(std::time::Duration::from_millis);
     c
 }
 
